@@ -66,14 +66,14 @@ Section Leaf.
     destruct (match mx with Some b => (b <? z)%Z | None => false end) eqn:E2; try discriminate.
     inversion H; subst. split; auto.
     change (number_in_bounds mn' mx' (JInt z) = true). unfold number_in_bounds.
-    cbv beta iota. rewrite !dec_cmp_int_int.
+    cbv beta iota.
     apply andb_true_iff. split.
-    - destruct mn' as [y|]; auto. unfold lower_within in Hl. destruct mn as [x|]; try discriminate.
+    - destruct mn' as [y|]; auto. rewrite dec_cmp_int_int. unfold lower_within in Hl. destruct mn as [x|]; try discriminate.
       apply Z.leb_le in Hl. apply Z.ltb_ge in E1. destruct (Z.compare z y) eqn:C; auto.
-      apply Z.compare_lt_iff in C. lia.
-    - destruct mx' as [y|]; auto. unfold upper_within in Hu. destruct mx as [x|]; try discriminate.
+      rewrite Z.compare_lt_iff in C. exfalso; lia.
+    - destruct mx' as [y|]; auto. rewrite dec_cmp_int_int. unfold upper_within in Hu. destruct mx as [x|]; try discriminate.
       apply Z.leb_le in Hu. apply Z.ltb_ge in E2. destruct (Z.compare z y) eqn:C; auto.
-      apply Z.compare_gt_iff in C. lia.
+      rewrite Z.compare_gt_iff in C. exfalso; lia.
   Qed.
 
   (* ---- booleans ---- *)
@@ -175,6 +175,6 @@ Section Leaf.
   Proof.
     intros Ev Hz v pv hc n H. apply ver_eqb_eq in Ev. subst vv'. simpl in H. inv_bind H.
     inversion Hb; subst. split; auto. apply clean_dictionary_inv in Ha. destruct Ha as [-> [Hk Hne]].
-    simpl. rewrite (clean_dict_keys_ok _ _ Hz Hk), andb_true_r. destruct a; auto. contradiction.
+    simpl. rewrite (clean_dict_keys_ok _ _ Hz Hk), andb_true_r. destruct a; auto; contradiction.
   Qed.
 End Leaf.
